@@ -151,6 +151,124 @@ theorem c02_refines_from_init (base : Masks) (cs : List Call) (hW : ∀ c ∈ cs
     (cs.foldl (select base) (init base)).masks = cs.foldl (specStep base) base :=
   (c02_refines base cs (init base) (inv_init base) hW).1
 
+/-! ### Switching spectral window or subarray
+
+  `select(spw=k)` / `select(subarray=j)` change the axes themselves: another number of channels, other dumps,
+  other correlation products.  The code adds 'TF' (resp. 'TB') to the dimensions to reset (dataset.py:737-742),
+  rebuilds the masks of those dimensions from the new window / subarray and drops their stored criteria.  In the
+  model a call then comes with the base masks `b'` in force *after* it; the only requirement is the one the code
+  enforces: a dimension whose base changes is cleared by that call. -/
+
+/-- the base may only change on dimensions the call clears -/
+def Compatible (b b' : Masks) (c : Call) : Prop := ∀ d, cleared c d = false → b'.get d = b.get d
+
+/-- the state as far as a call can see it: masks of cleared dimensions replaced by the new base, stored
+    criteria of cleared dimensions dropped -/
+def forget (b' : Masks) (σ : St) (c : Call) : St :=
+  { masks := { t := if cleared c .T then b'.t else σ.masks.t
+               f := if cleared c .F then b'.f else σ.masks.f
+               b := if cleared c .B then b'.b else σ.masks.b }
+    sel := σ.sel.filter (fun k => !cleared c k.key.dim) }
+
+theorem select_forget (b' : Masks) (σ : St) (c : Call) : select b' (forget b' σ c) c = select b' σ c := by
+  simp only [select, forget, List.filter_filter, Bool.and_self]
+  congr 2 <;> (split <;> rfl)
+
+theorem specStep_forget (b' : Masks) (σ : St) (c : Call) :
+    specStep b' (forget b' σ c).masks c = specStep b' σ.masks c := by
+  simp only [specStep, forget]
+  congr 1 <;> (split <;> rfl)
+
+theorem inv_forget (b b' : Masks) (σ : St) (c : Call) (hI : Inv b σ) (hc : Compatible b b' c) :
+    Inv b' (forget b' σ c) := by
+  obtain ⟨hlen, hsel⟩ := hI
+  refine ⟨?_, ?_⟩
+  · intro d
+    cases d <;> simp only [forget, Masks.get]
+    · by_cases h : cleared c .T = true
+      · simp [h]
+      · have h' : cleared c .T = false := by simpa using h
+        have e := hc .T h'; have l := hlen .T; simp only [Masks.get] at e l; simp [h', e, l]
+    · by_cases h : cleared c .F = true
+      · simp [h]
+      · have h' : cleared c .F = false := by simpa using h
+        have e := hc .F h'; have l := hlen .F; simp only [Masks.get] at e l; simp [h', e, l]
+    · by_cases h : cleared c .B = true
+      · simp [h]
+      · have h' : cleared c .B = false := by simpa using h
+        have e := hc .B h'; have l := hlen .B; simp only [Masks.get] at e l; simp [h', e, l]
+  · intro k hk
+    simp only [forget, List.mem_filter, Bool.not_eq_true'] at hk
+    obtain ⟨hk1, hk2⟩ := hk
+    obtain ⟨hwf, hcont⟩ := hsel k hk1
+    have hb := hc k.key.dim hk2
+    refine ⟨by unfold CritWF at hwf ⊢; rw [hb]; exact hwf, ?_⟩
+    intro i hi
+    apply hcont i
+    cases hd : k.key.dim <;> simp only [forget, Masks.get, hd] at hi ⊢ <;> rw [hd] at hk2 <;> simpa [hk2] using hi
+
+/-- **One call that may switch spectral window / subarray**: mirror = documented rule on the new axes, and the
+    invariant holds for the new base -/
+theorem select_step_switch (b b' : Masks) (σ : St) (c : Call) (hI : Inv b σ) (hc : Compatible b b' c)
+    (hW : CallWF b' c) :
+    (select b' σ c).masks = specStep b' σ.masks c ∧ Inv b' (select b' σ c) := by
+  have := select_step b' (forget b' σ c) c (inv_forget b b' σ c hI hc) hW
+  rwa [select_forget, specStep_forget] at this
+
+/-- a call together with the base masks in force after it -/
+structure SCall where
+  base : Masks
+  call : Call
+
+/-- every call of the history is compatible with the base left by the call before it -/
+def ChainOK : Masks → List SCall → Prop
+  | _, [] => True
+  | b, sc :: t => Compatible b sc.base sc.call ∧ CallWF sc.base sc.call ∧ ChainOK sc.base t
+
+/-- **C02 refinement with window / subarray switches, every finite history** -/
+theorem c02_refines_switching : ∀ (cs : List SCall) (b : Masks) (σ : St), Inv b σ → ChainOK b cs →
+    (cs.foldl (fun σ sc => select sc.base σ sc.call) σ).masks =
+      cs.foldl (fun m sc => specStep sc.base m sc.call) σ.masks := by
+  intro cs
+  induction cs with
+  | nil => intro b σ _ _; rfl
+  | cons sc t ih =>
+    intro b σ hI hC
+    obtain ⟨hc, hW, hT⟩ := hC
+    obtain ⟨h1, h2⟩ := select_step_switch b sc.base σ sc.call hI hc hW
+    simp only [List.foldl_cons]
+    have := ih sc.base (select sc.base σ sc.call) h2 hT
+    rw [h1] at this
+    exact this
+
+/-- after a call that switches window (resp. subarray) the time and frequency (resp. product) masks are the
+    criteria of that very call applied to the new axes: nothing of the old window survives -/
+theorem c02_switch_forgets (b' m : Masks) (c : Call) (d : Dim) (hcl : cleared c d = true) :
+    (specStep b' m c).get d = andAll (b'.get d) c.crits d := by
+  cases d <;> simp only [specStep, Masks.get] <;> simp [hcl]
+
+-- non-vacuity: a history on a window with 4 dumps / 2 channels that narrows all three dimensions, switches (with a
+-- frequency criterion in the same call) to a window with 3 dumps / 5 channels, then narrows time there
+def swBase0 : Masks := { t := [true, true, true, true], f := [true, true], b := [true, true, true] }
+def swBase1 : Masks := { t := [true, true, true], f := [true, true, true, true, true], b := [true, true, true] }
+def swCalls : List SCall :=
+  [ ⟨swBase0, { crits := [⟨.dumps, [true, true, false, false]⟩, ⟨.channels, [false, true]⟩, ⟨.pol, [true, false, true]⟩],
+                reset := .auto, bare := false }⟩,
+    ⟨swBase1, { crits := [⟨.freqrange, [false, true, true, true, false]⟩], reset := .explicit [.F, .T], bare := false }⟩,
+    ⟨swBase1, { crits := [⟨.dumps, [false, true, true]⟩], reset := .auto, bare := false }⟩ ]
+
+example : ChainOK swBase0 swCalls := by
+  refine ⟨?_, ?_, ?_, ?_, ?_, ?_, trivial⟩
+  · intro d h; cases d <;> simp_all [cleared, swCalls, Key.dim]
+  · exact ⟨by intro k hk; simp [swCalls] at hk; rcases hk with rfl | rfl | rfl <;> rfl, by decide⟩
+  · intro d h; cases d <;> simp_all [cleared, swCalls, Key.dim, swBase0, swBase1, Masks.get]
+  · exact ⟨by intro k hk; simp [swCalls] at hk; subst hk; rfl, by decide⟩
+  · intro d h; rfl
+  · exact ⟨by intro k hk; simp [swCalls] at hk; subst hk; rfl, by decide⟩
+
+example : (swCalls.foldl (fun σ sc => select sc.base σ sc.call) (init swBase0)).masks =
+    { t := [false, true, true], f := [false, true, true, true, false], b := [true, false, true] } := by decide
+
 /-! ### Consequences of the documented rule (stated on `specStep`; they transfer to the
     implementation model through `c02_refines`) -/
 
